@@ -7,6 +7,7 @@ schedule: programs are deterministic data-flow over collectives whose matching i
 independent).  Property theorems only.
 -/
 import KfacVerif.Lemmas.SpecFacts
+import KfacVerif.Lemmas.KaisaLink
 import Mathlib.Data.Matrix.Basic
 import Mathlib.Data.Matrix.Mul
 
@@ -55,5 +56,27 @@ theorem cov_union {W B n : ℕ} (X : Fin W → Matrix (Fin B) (Fin n) ℚ) :
   rw [Matrix.sum_apply, Matrix.mul_apply, Fintype.sum_prod_type]
   simp only [Matrix.mul_apply, Matrix.transpose_apply]
   rfl
+
+/-- **the statement for KAISA itself**: any two well-formed KAISA assignments of the same world
+    (any gradient-worker counts dividing it, co-location on/off, any cost dictionaries = COMPUTE or
+    MEMORY heuristic, any CPython set orders) combined with any bucket capacities, symmetry settings,
+    element sizes and layer dimensions — but the same method, pre-division, accumulation and hook
+    mode — leave identical gradients on every rank after every history -/
+theorem kaisa_placement_irrelevant (kc₁ kc₂ : Kaisa.Cfg) (h₁ : C06.OK kc₁) (h₂ : C06.OK kc₂)
+    (t₁ : KaisaAssign.TwoFactors kc₁) (t₂ : KaisaAssign.TwoFactors kc₂)
+    (n₁ : kc₁.work ≠ []) (n₂ : kc₂.work ≠ []) (hw : kc₁.w = kc₂.w)
+    (p₁ p₂ : Precond.Cfg) (l₁ : p₁.layers.length = kc₁.work.length) (l₂ : p₂.layers.length = kc₂.work.length)
+    (hn : p₁.layers.length = p₂.layers.length) (hm : p₁.method = p₂.method) (hp : p₁.prediv = p₂.prediv)
+    (ha : p₁.accum = p₂.accum) (hk : p₁.hook = p₂.hook) (hacc : 0 < p₁.accum)
+    (c₁ : p₁.prediv = true → kc₁.colocate = true) (c₂ : p₂.prediv = true → kc₂.colocate = true)
+    (h : Hyper) (ops : List Op)
+    (e₁ : (Precond.run (KaisaLink.mkCfg kc₁ p₁) (St.init (KaisaLink.mkCfg kc₁ p₁) h) ops).err = none)
+    (e₂ : (Precond.run (KaisaLink.mkCfg kc₂ p₂) (St.init (KaisaLink.mkCfg kc₂ p₂) h) ops).err = none)
+    {r r' : Nat} (hr : r < kc₁.w) (hr' : r' < kc₂.w) :
+    (Precond.run (KaisaLink.mkCfg kc₁ p₁) (St.init (KaisaLink.mkCfg kc₁ p₁) h) ops).outGrads.getD r [] =
+      (Precond.run (KaisaLink.mkCfg kc₂ p₂) (St.init (KaisaLink.mkCfg kc₂ p₂) h) ops).outGrads.getD r' [] :=
+  placement_irrelevant _ _ (KaisaLink.kaisa_CfgOK2 kc₁ h₁ t₁ n₁ p₁ l₁ hacc c₁)
+    (KaisaLink.kaisa_CfgOK2 kc₂ h₂ t₂ n₂ p₂ l₂ (ha ▸ hacc) c₂)
+    (KaisaLink.ofCfg_mkCfg_eq hw hn hm hp ha hk) h ops e₁ e₂ hr hr'
 
 end KV.C02
